@@ -5,6 +5,7 @@ import (
 	"bytes"
 	"errors"
 	"net"
+	"strings"
 	"sync"
 	"time"
 
@@ -102,9 +103,11 @@ func (cj *CookieJar) getCookiesByHost(host string) []*fasthttp.Cookie {
 			i--
 		}
 	}
-	// keep the purged list: the released cookies must not stay referenced by the jar
-	if _, ok := cj.hostCookies[host]; ok {
-		cj.hostCookies[host] = cookies
+	// keep the purged list: the released cookies must not stay referenced by the jar.
+	// Assigning to an existing key installs the key used in the assignment: it must be a copy, host may be a
+	// view of a request buffer.
+	if old, ok := cj.hostCookies[host]; ok && len(old) != len(cookies) {
+		cj.hostCookies[strings.Clone(host)] = cookies
 	}
 
 	return cookies
@@ -139,11 +142,10 @@ func (cj *CookieJar) SetByHost(host []byte, cookies ...*fasthttp.Cookie) {
 		cj.hostCookies = make(map[string][]*fasthttp.Cookie)
 	}
 
-	hostCookies, ok := cj.hostCookies[hostStr]
-	if !ok {
-		// If the key does not exist in the map, make a copy to avoid unsafe usage.
-		hostStr = string(host)
-	}
+	hostCookies := cj.hostCookies[hostStr]
+	// The key stored in the map is the one used in the assignment below, also when the key already exists:
+	// make a copy to avoid unsafe usage.
+	hostStr = string(host)
 
 	for _, cookie := range cookies {
 		existing := searchCookieByKeyAndPath(cookie.Key(), cookie.Path(), hostCookies)
@@ -203,11 +205,10 @@ func (cj *CookieJar) parseCookiesFromResp(host, path []byte, resp *fasthttp.Resp
 		cj.hostCookies = make(map[string][]*fasthttp.Cookie)
 	}
 
-	cookies, ok := cj.hostCookies[hostStr]
-	if !ok {
-		// If the key does not exist in the map, make a copy to avoid unsafe usage.
-		hostStr = string(host)
-	}
+	cookies := cj.hostCookies[hostStr]
+	// The key stored in the map is the one used in the assignment below, also when the key already exists:
+	// make a copy to avoid unsafe usage.
+	hostStr = string(host)
 
 	now := time.Now()
 	resp.Header.VisitAllCookie(func(key, value []byte) {
